@@ -124,7 +124,7 @@ def oracle_one(spec, key, theta, a, integrators=None):
 def gen_cases(ck):
     """(family, pulse spec, key, theta, a)"""
     quick = ck.tier == "quick"
-    thetas_core = [math.pi / 4, -math.pi / 4, math.pi / 2, -math.pi, math.pi, 2.0, -7.3, 0.0, 0, 1e-12, -1e-9, 1e-5, 25.0]
+    thetas_core = [math.pi / 4, -math.pi / 4, math.pi / 2, -math.pi, math.pi, 2.0, -7.3, 0.0, 0, 1e-12, -1e-9, 1e-5, 25.0, 600.0, -1500.0]   # 'tiny and large'
     thetas_big = [100.0, -60.0]
     a_vals = [1.0, 0.3, 3.3, 3.2e-7 / 3.5e-8, 1.5, 1]
     pulses = [["const"], ["constnum"], ["gauss", 0.5, 0.25], ["gauss", 0.5, 0.1], ["gauss", 0.2, 0.5], ["gauss", -1.0, 2.0],
@@ -226,7 +226,8 @@ def validate_translation(ck, tr):
                         if hexf(x) != hexf(y):
                             bad.append(("_numerical_integration", {"key": key, "theta": th, "a": a, "mirror": hexf(x), "real": hexf(y)}))
                         lo = eval(T.py_of(tr["quad"]["lower"]), {"theta": th, "a": a}); hi = eval(T.py_of(tr["quad"]["upper"]), {"theta": th, "a": a})
-                        if cap.get("kw") or len(cap.get("args", ())) != 2 or hexf(cap["args"][0]) != hexf(lo) or hexf(cap["args"][1]) != hexf(hi):
+                        kw_ok = set(cap.get("kw") or {}) <= {"limit"} and int((cap.get("kw") or {}).get("limit", 50)) >= 50   # more subintervals than the default only
+                        if not kw_ok or len(cap.get("args", ())) != 2 or hexf(cap["args"][0]) != hexf(lo) or hexf(cap["args"][1]) != hexf(hi):
                             bad.append(("quad bounds/options", {"key": key, "theta": th, "a": a, "real": repr((cap.get("args"), cap.get("kw")))}))
                         else:
                             for _ in range(5):
